@@ -13,7 +13,7 @@ import (
 // filled buffer in the middle of the stream puts padding between records.
 func ruleBufferedOrder(r *Report) {
 	const rule = "buffered-order"
-	r.Rule(rule, 2, "recordio.Writer.Write bypasses the buffer only when the buffer is empty, and tops the buffer up from the argument before every flush inside the write loop")
+	r.Rule(rule, 3, "recordio.Writer.Write bypasses the buffer only when the buffer is empty and never in the block-aligned flavour, and tops the buffer up from the argument before every flush inside the write loop")
 	fn := r.NeedFunc(rule, "recordio.Writer.Write")
 	if fn == nil {
 		return
@@ -73,6 +73,35 @@ func ruleBufferedOrder(r *Report) {
 		}
 		if !bad {
 			r.OK(rule, key, bypass[0].Pos(), "direct write only through the b.n == 0 edge")
+		}
+	}
+	// (1b) and never in the block-aligned flavour: the file is opened with O_DIRECT there, which takes whole aligned
+	// blocks only — the caller's slice is neither
+	key = rule + "/recordio.Writer.Write/bypass-never-when-aligned"
+	if len(bypass) == 0 {
+		r.OK(rule, key, fn.Pos(), "Write never bypasses the buffer")
+	} else {
+		removed := map[Edge]bool{}
+		for _, b := range liveBlocks(fn) {
+			cnd, tS, fS, tE, fE, ok := effCond(b)
+			if !ok || !isField(cnd, "alignFlush") {
+				continue
+			}
+			_, _ = tS, tE
+			if fE {
+				removed[Edge{b, fS}] = true // the "not aligned" side
+			}
+		}
+		bad := false
+		for _, s := range bypass {
+			if siteReachable(s, removed) {
+				bad = true
+			}
+		}
+		if bad {
+			r.Bad(rule, key, bypass[0].Pos(), "the direct write of the caller's slice is reachable in the block-aligned (DirectIO) flavour: a record larger than the free buffer plus one buffer (10000 bytes with a 4 KiB buffer, 9 MiB with the default) is handed to the O_DIRECT descriptor unaligned, write(2) fails with EINVAL and the error sticks to the writer")
+		} else {
+			r.OK(rule, key, bypass[0].Pos(), "direct write only in the unaligned flavour")
 		}
 	}
 	// (2) every Flush inside the loop is dominated by a copy into b.buf[b.n:] and the matching b.n update, in its block chain
